@@ -56,13 +56,13 @@ func (c *ctx) command(i int) (cop, xsens.MessageIdentifier) {
 	return o, t.ack
 }
 
-// ackPayload: something the command's decoder accepts (or not: C14 covers the decoders)
+// ackPayload: something the command's decoder accepts (C14 covers what the decoders reject)
 func (c *ctx) ackPayload(name string) []byte {
 	switch name {
 	case "GetDeviceID":
-		return c.payload([]int{4, 8, 4, 8, 5}[c.rng.Intn(5)])
+		return c.payload([]int{4, 8}[c.rng.Intn(2)])
 	case "GetHWVersion":
-		return c.payload([]int{2, 2, 3}[c.rng.Intn(3)])
+		return c.payload(2)
 	case "GetProductCode":
 		return []byte("MTi-30-2A8G4   ")
 	case "GetOutputConfiguration":
@@ -70,7 +70,7 @@ func (c *ctx) ackPayload(name string) []byte {
 	case "GetCANOutputConfiguration":
 		return c.payload(8 * c.rng.Intn(5))
 	case "GetCANConfiguration":
-		return c.payload([]int{4, 4, 2}[c.rng.Intn(3)])
+		return c.payload(4 + c.rng.Intn(3))
 	case "GoToMeasurement":
 		return c.measurementPayload(5, true)
 	}
